@@ -243,6 +243,20 @@ fn ipp_verify_once<C: Cv>(run: &IppRun<C>, n_claim: usize, proof: &IppM<C::G>, p
     res
 }
 
+/// the round challenges the code itself derives when it verifies `proof` against `p` (read through the guarded challenge recorder)
+fn ipp_round_challenges<C: Cv>(run: &IppRun<C>, proof: &IppM<C::G>, p: &C::G) -> Option<Vec<Fr<C>>> {
+    ark_bulletproofs::verif_hooks::start_recording_challenges();
+    let mut t = Transcript::new(b"innerproducttest");
+    let real = proof.to_real();
+    let res = catch_unwind(AssertUnwindSafe(|| real.verify(run.n, &mut t, run.gf.iter(), run.hf.iter(), p, &run.q, &run.g, &run.h)));
+    let ch = ark_bulletproofs::verif_hooks::take_challenges();
+    if !matches!(res, Ok(Ok(()))) {
+        return None;
+    }
+    let us: Vec<Fr<C>> = ch.iter().filter(|(l, _)| &l[..] == b"u").filter_map(|(_, b)| Fr::<C>::deserialize_compressed(&b[..]).ok()).collect();
+    if us.len() == proof.l_vec.len() && us.iter().all(|u| !u.is_zero()) { Some(us) } else { None }
+}
+
 /// One create + a family of verifications (correct, and every rejection class). `inst` = {k, a, b, gf, hf} pattern names.
 pub fn ipp_instance<C: Cv>(inst: &Value, seed: u64, out: &mut Vec<Value>) -> Vec<String> {
     let mut rng = ChaChaRng::seed_from_u64(seed);
@@ -349,6 +363,50 @@ pub fn ipp_instance<C: Cv>(inst: &Value, seed: u64, out: &mut Vec<Value>) -> Vec
         pf.r_vec[j] = C::G::zero();
         let r = ipp_verify_once(&run, n, &pf, &p, &gf, &hf, "identity-round", out);
         expect("identity-round", r, false, &mut bad);
+    }
+    // openings adapted to the round challenges of the accepted run ("frozen challenges"): each keeps the verification equation intact
+    // under the OLD challenges - a cross term moved into the statement point, or between two round points - and is another opening of
+    // another P (or another proof of the same P); since every round point is absorbed before its challenge, the challenges move and the
+    // opening is rejected
+    if k > 0 && !degenerate {
+        if let Some(us) = ipp_round_challenges::<C>(&run, &proof, &p) {
+            let mulp = |pt: &C::G, s: Fr<C>| (pt.into_group() * s).into_affine();
+            let addp = |x: &C::G, y: &C::G| (x.into_group() + y.into_group()).into_affine();
+            let delta = nz_vec::<C>("dense", 1, &mut rng)[0];
+            let dq = mulp(&q, delta);
+            let p_shift = (p.into_group() - dq.into_group()).into_affine();
+            let j = rng.gen_range(0..k);
+            let uj2 = us[j] * us[j];
+            let uj2i = uj2.inverse().unwrap();
+            let mut pf = proof.clone();
+            pf.r_vec[j] = addp(&pf.r_vec[j], &mulp(&dq, uj2));
+            let r = ipp_verify_once(&run, n, &pf, &p_shift, &gf, &hf, "frozen-R-P", out);
+            expect("frozen-R-P", r, false, &mut bad);
+            let mut pf = proof.clone();
+            pf.l_vec[j] = addp(&pf.l_vec[j], &mulp(&dq, uj2i));
+            let r = ipp_verify_once(&run, n, &pf, &p_shift, &gf, &hf, "frozen-L-P", out);
+            expect("frozen-L-P", r, false, &mut bad);
+            let d = mulp(&run.g[0], delta);
+            let mut pf = proof.clone();
+            pf.l_vec[j] = addp(&pf.l_vec[j], &d);
+            pf.r_vec[j] = (pf.r_vec[j].into_group() - mulp(&d, uj2 * uj2).into_group()).into_affine();
+            let r = ipp_verify_once(&run, n, &pf, &p, &gf, &hf, "frozen-L-R", out);
+            expect("frozen-L-R", r, false, &mut bad);
+            if k > 1 {
+                let m = (j + 1 + rng.gen_range(0..k - 1)) % k;
+                let um2 = us[m] * us[m];
+                let mut pf = proof.clone();
+                pf.r_vec[j] = addp(&pf.r_vec[j], &d);
+                pf.r_vec[m] = (pf.r_vec[m].into_group() - mulp(&d, um2 * uj2i).into_group()).into_affine();
+                let r = ipp_verify_once(&run, n, &pf, &p, &gf, &hf, "frozen-R-R", out);
+                expect("frozen-R-R", r, false, &mut bad);
+                let mut pf = proof.clone();
+                pf.l_vec[j] = addp(&pf.l_vec[j], &d);
+                pf.l_vec[m] = (pf.l_vec[m].into_group() - mulp(&d, uj2 * um2.inverse().unwrap()).into_group()).into_affine();
+                let r = ipp_verify_once(&run, n, &pf, &p, &gf, &hf, "frozen-L-L", out);
+                expect("frozen-L-L", r, false, &mut bad);
+            }
+        }
     }
     // a claimed length that does not match the rounds (generators sized for the claim are required by the API; use n/2 and 2n views)
     if k > 0 {
